@@ -52,8 +52,12 @@ def main():
                 mesh, f = body(kind, rng)
                 solid = fem.SolidBody(fem.LinearElastic(E=E, nu=0.25), f, density=rho)
                 bnames = ["left", "leftx"][rep % 2]
-                b = {"left": fem.Boundary(f[0], fx=0)} if bnames == "left" else {"left": fem.Boundary(f[0], fx=0, skip=(0, 1, 1)[:f[0].dim]),
-                                                                                  "bottom": fem.Boundary(f[0], fy=0, skip=(1, 0, 1)[:f[0].dim])}
+                if bnames == "left":
+                    b = {"left": fem.Boundary(f[0], fx=0)}
+                else:       # symmetry planes: no rigid-body mode is left (the pencil is regular at the default shift 0)
+                    b = {"left": fem.Boundary(f[0], fx=0, skip=(0, 1, 1)[:f[0].dim]), "bottom": fem.Boundary(f[0], fy=0, skip=(1, 0, 1)[:f[0].dim])}
+                    if f[0].dim == 3:
+                        b["back"] = fem.Boundary(f[0], fz=0, skip=(1, 1, 0))
                 job = fem.FreeVibration(items=[solid], boundaries=b).evaluate(k=nmodes)
                 fresh = fem.SolidBody(fem.LinearElastic(E=E, nu=0.25), f.copy(), density=rho)       # independent re-assembly
                 K = fresh.assemble.matrix().toarray()
